@@ -446,7 +446,9 @@ def verify(c: Contract, variant=None, deadline_s=600):
             msg = str(e)
             if _looks_like_proxy_error(e, msg):
                 raise Unsupported("%s: %s" % (type(e).__name__, msg[:200]))
+            a.old = old
             return _CallOutcome(a, old, "exc", e)
+        a.old = old          # predicates over the post-state can still reach the pre-state
         return _CallOutcome(a, old, "ret", r)
 
     deadline = t_start + deadline_s
@@ -643,6 +645,7 @@ def _replay_inner(c, variant, o, S, f):
             kind = "ret"
         except Exception as e:
             r, kind = e, "exc"
+        a.old = old
         suffix = o.name.split("/")[-1]
         res = {"inputs": shown, "outcome": ("returned " + _safe_repr(r)) if kind == "ret" else "raised %s: %s" % (type(r).__name__, str(r)[:200])}
         if suffix.startswith("post:"):
